@@ -20,7 +20,7 @@ import (
 //	o.t.         NSEC3 opt-out, unsigned child uc.o.t.
 //	u.t.         unsigned, no DS (proven insecure delegation)
 //	p.t.+c.p.t.  one server; p signed (CSK), c unsigned (no DS)
-//	d.t.         NSEC, DNAME alias.d.t. -> s.t.
+//	d.t.         NSEC, DNAME alias.d.t. -> s.t., DNAME ins.d.t. -> u.t.
 func vkUniverse(rot int) *zonemodel.Universe {
 	alg := func(i int) uint8 { return zonemodel.Algorithms[(i+rot)%len(zonemodel.Algorithms)] }
 	u := zonemodel.NewUniverse("c01")
@@ -59,7 +59,7 @@ func vkUniverse(rot int) *zonemodel.Universe {
 	ut.Add("a A 10.5.0.1", "a AAAA 2001:db8:5::1", `a TXT "a-in-u"`, "www CNAME a.u.t.")
 	p.Add("a A 10.6.0.1", `a TXT "a-in-p"`)
 	c.Add("a A 10.7.0.1", `a TXT "a-in-c"`)
-	d.Add("alias DNAME s.t.", "a A 10.8.0.1")
+	d.Add("alias DNAME s.t.", "ins DNAME u.t.", "a A 10.8.0.1")
 	return u.Build()
 }
 
@@ -74,6 +74,9 @@ var vkNames = []vkName{
 	{"nx.s.t.", 0},      // secure NXDOMAIN (NSEC)
 	{"www.s.t.", 0},     // in-zone CNAME
 	{"x.w.s.t.", 0},     // wildcard expansion (NSEC)
+	{"exact.w.s.t.", 0}, // existing name next to a wildcard
+	{"t.", 0},           // TLD apex: DS answered by the root itself
+	{"nxtld.", 0},       // name denied by the root itself
 	{"ext.s.t.", 0},     // CNAME secure -> secure (other zone, NSEC3)
 	{"toins.s.t.", 0},   // CNAME secure -> insecure
 	{"a.h.t.", 0},       // secure, NSEC3, clone key in DNSKEY RRset
@@ -86,14 +89,12 @@ var vkNames = []vkName{
 	{"a.p.t.", 0},       // signed parent on the shared server
 	{"a.c.p.t.", 0},     // unsigned child answered by the shared server without a referral
 	{"a.alias.d.t.", 0}, // DNAME into s.t.
+	{"a.ins.d.t.", 0},   // DNAME from a secure zone into the insecure u.t.
+	{"y.w.o.t.", 0},     // wildcard expansion in an opt-out zone (never AD)
 	{"s.t.", 0},         // apex: DS at the parent, DNSKEY at the child
-	{"t.", 0},           // TLD apex: DS answered by the root itself
-	{"nxtld.", 0},       // name denied by the root itself
-	{"exact.w.s.t.", 0}, // existing name next to a wildcard
 	{"ent.s.t.", 1},     // empty non-terminal
 	{"wc.s.t.", 1},      // CNAME onto a wildcard-expanded name
 	{"www.h.t.", 1},     // in-zone CNAME (NSEC3)
-	{"y.w.o.t.", 1},     // wildcard expansion in an opt-out zone
 	{"nx.u.t.", 1},      // insecure NXDOMAIN
 	{"nx.alias.d.t.", 1},
 	{"h.t.", 1},
